@@ -652,6 +652,16 @@ def analyse(bodyk):
 
 # --------------------------------------------------------------------------- one session on the real code
 
+RAW_REQUESTS = [
+    b'\x00\x01\x02\r\n\r\n', b'GET /\r\n\r\n', b'POST / HTTP/2.0\r\n\r\n', b'POST  /  HTTP/1.1\r\n\r\n', b'', b'\r\n\r\n',
+    b'POST / HTTP/1.1\r\nno colon here\r\n\r\n', b'POST / HTTP/1.1\r\n' + b''.join(b'X-%d: 1\r\n' % i for i in range(150)) + b'\r\n',
+    b'POST / HTTP/1.1\r\nX-Long: ' + b'y' * 70000 + b'\r\n\r\n', b'POST /' + b'a' * 70000 + b' HTTP/1.1\r\n\r\n',
+    b'POST / HTTP/1.1\r\nContent-Type: text/xml\r\nContent-Length: 5\r\n\r\nab', b'POST / HTTP/1.1\r\n: novalue\r\n\r\n',
+    b'POST / HTTP/1.1\nContent-Type: text/xml\n\n', b'POST / HTTP/1.1\r\nContent-Type: text/xml',
+    b'POST / HTTP/1.1 extra\r\n\r\n', b'\xff\xfe / HTTP/1.1\r\n\r\n', b'POST / HTTP/1.1\r\n\x00: \x00\r\n\r\n',
+]
+
+
 def gen_session(rng, thorough, idx):
     cap = rng.choice([None, None, 0, 1, 1, 2, 3])
     gated = cap in (1, 2, 3) or (rng.random() < 0.2)
@@ -660,6 +670,11 @@ def gen_session(rng, thorough, idx):
     for i in range(nreq):
         if gated and rng.random() < 0.25:
             events.append({'ev': 'release'})
+            insts.append(None)
+            continue
+        if rng.random() < 0.04:
+            # below the request grammar: answered (or not) by http.server alone; only survival is demanded
+            events.append({'ev': 'raw', 'bytes': b64(rng.choice(RAW_REQUESTS))})
             insts.append(None)
             continue
         spec, inst = gen_request(rng, idx * 1000 + i)
@@ -711,6 +726,16 @@ def run_session(case, async_stop=False):
                 model_events += [{'ev': 'deliver'}] * (sess.entered - before)
                 real_obs += [None] * (sess.entered - before)
                 count('ev:release')
+                continue
+            if ev['ev'] == 'raw':
+                nexc = len(_handler_excs)
+                st, buf = exchange(sess.port, unb64(ev['bytes']))
+                count('ev:raw')
+                count('raw:' + (st if st != 'closed' else ('answered' if buf else 'closed_silently')))
+                if st == 'timeout':
+                    violate({'kind': 'handler_blocked', 'intent': 'raw', 'method': 'other'}, idx, {'bytes': len(buf)})
+                if len(_handler_excs) > nexc:
+                    violate({'kind': 'handler_exception', 'intent': 'raw', 'exc': _handler_excs[nexc]}, idx, {})
                 continue
             if ev.get('final'):
                 sess.open_gates()
@@ -765,6 +790,7 @@ def run_session(case, async_stop=False):
                                  'wire': common.cps(buf[:buf.find(b'\r\n\r\n') + 4].decode('latin-1'))})
             count('intent:' + ev['intent'])
             count('status:%s' % (rsp['status'] if rsp else (problem or st)))
+            count('by_intent:%s:%s' % (ev['intent'], rsp['status'] if rsp else (problem or st)))
             if rsp and hget(rsp['headers'], 'CIMError'):
                 count('cimerror:' + hget(rsp['headers'], 'CIMError'))
             if an and an['cls']:
@@ -1024,6 +1050,8 @@ def minimise(case, v):
     idx = v['idx']
     ev = case['events'][idx]
     final = case['events'][-1]
+    if ev['ev'] != 'req':
+        return {'cap': case['cap'], 'gated': case['gated'], 'events': case['events'][:idx + 1] + [final]}
     single = {'cap': case['cap'], 'gated': False, 'events': [ev] + ([final] if ev is not final else [])}
     try:
         r = run_session(single)
